@@ -193,7 +193,9 @@ var expectedProbes = map[string][]string{}
 
 // ExpectProbes declares probes that a healthy thorough run should hit; the
 // evidence carries a warning for any of them that stayed at zero.
-func ExpectProbes(id string, names ...string) { expectedProbes[id] = append(expectedProbes[id], names...) }
+func ExpectProbes(id string, names ...string) {
+	expectedProbes[id] = append(expectedProbes[id], names...)
+}
 
 // ExpectedProbes returns the declared probes.
 func ExpectedProbes(id string) []string { return expectedProbes[id] }
